@@ -120,7 +120,13 @@ def apply_rewrite(ctx, g, poly, rng, L, label_hist):
         label_hist.append('illegal-rename')
         return poly
     if op == 'add':
-        collide = str(rng.choice(['same-range', 'offset', 'disjoint', 'self-copy', 'flipped-copy', 'swapped-terminal-ids', 'fully-disjoint-ids']))
+        collide = str(rng.choice(['same-range', 'offset', 'disjoint', 'self-copy', 'flipped-copy', 'swapped-terminal-ids', 'fully-disjoint-ids', 'same-object']))
+        if collide == 'same-object':
+            # the graph added to ITSELF (the very same object): twice the operator
+            r = g.add(g)
+            ctx.ok('add.returns-self', r is g, 'add must return the graph', detail)
+            label_hist.append('add-same-object')
+            return refs.poly_add(poly, poly)
         if collide == 'self-copy':
             h = copy.deepcopy(g)
         elif collide == 'flipped-copy':
